@@ -108,9 +108,16 @@ class SymSeq:
         return cls(name, n, elem)
 
     def slen(self):
-        if self.appended:
-            return self.n + len(self.appended)
-        return self.n
+        n = self.n
+        for x in self.appended:
+            n = n + (x.seq.slen() if isinstance(x, SeqChunk) else 1)
+        return n
+
+    def extend(self, xs):
+        if isinstance(xs, SymSeq):
+            self.appended.append(SeqChunk(xs))
+        else:
+            self.appended.extend(list(xs))
 
     def at(self, i):
         if not isinstance(i, (int, SNum)):
@@ -128,6 +135,13 @@ class SymSeq:
 
     def __repr__(self):
         return f"<symseq {self.name}>"
+
+
+class SeqChunk:
+    """a whole symbolic sequence appended to another one by list.extend"""
+
+    def __init__(self, seq):
+        self.seq = seq
 
 
 class SymDict:
